@@ -202,11 +202,26 @@ class HyGen:
         return "(setv %s (%s %s (range 2) :do (nonlocal %s) (do %s %s %s)))" % (
             r.choice(NAMES), kind, it, " ".join(decl), upd, leak, it)
 
+    def nonlocal_in_nested_lets(self, vis, enclosing):
+        """a (nonlocal ..) inside a let nested in another let of the same function: the names the outer let
+        binds are elided from the statement, the others must keep their written order"""
+        r = self.rng
+        pool = sorted(enclosing["fn"])
+        outer = [n for n in NAMES if n not in pool][: 6]
+        lo = r.sample(outer, 2)
+        decl = r.sample(pool, min(len(pool), r.randint(2, 5))) + [lo[0]] + r.sample(GLOBALS, r.randint(0, 2))
+        r.shuffle(decl)
+        f = self.fresh()
+        return "(defn %s [] (let [%s 1] (let [%s 2] (nonlocal %s) (setv %s %s) %s)))" % (
+            f, lo[0], lo[1], " ".join(decl), decl[0], lo[1], lo[0])
+
     def stmt(self, vis, depth, enclosing):
         r = self.rng
         c = r.random()
         if enclosing is not None and len(enclosing["fn"]) >= 2 and r.random() < 0.12:
             return self.nonlocal_comprehension(vis, enclosing)
+        if enclosing is not None and len(enclosing["fn"]) >= 2 and r.random() < 0.08:
+            return self.nonlocal_in_nested_lets(vis, enclosing)
         if depth > 2:
             c = c * 0.3
         if c < 0.18:
